@@ -24,7 +24,7 @@ func init() {
 		Builds:              []string{"default", "386"}, // the 386 build runs 1/6 of the random classes on a 32-bit target
 		Scale386:            6,
 		Parallel:            4, // cases are judged on 4 goroutines per shard: the library functions are stateless, shared state inside them shows up as wrong verdicts
-		Rule: "commute: (curve in {secp256k1, P-256}, seed, path, non-hardened index from {0, 1, 2^31-1, random}, plus the published P-256 vector whose child needs a retry): four children (idx, a sibling, idx again, another sibling) are derived from the SAME extended private key object and from the SAME Public() object; for each, DeriveChild then Public() vs. DeriveChild on Public(): key bytes, chain code, fingerprint. shift also includes secp256k1 shifts lambda*k and lambda^2*k (the shifted point has the same y as the key and another x). shift: (curve, scalar k, 32-byte shift) with shift in {0, 1, k, n-k, n-k+-1, n-1, n, n+1, 2^256-1, random < n, random >= n} and k in {1, 2, n-1, (n+-1)/2, random, and scalars outside [1, n-1] — 0, n, n+1, n+2, random in (n, 2^256), 2^256-1 — for which the key is built directly from the exported fields of elliptic.PrivateKey}: PrivateKey.Shift and PublicKey.Shift must both report ErrInvalidKey or both succeed with pub' = point(priv') (the point computed by the affine model for the returned private scalar); no panic. Whether the common verdict/value is the one SLIP-0010 prescribes is counted here and judged by C02. " +
+		Rule: "commute: (curve in {secp256k1, P-256}, seed, path, non-hardened index from {0, 1, 2^31-1, random}, plus the published P-256 vector whose child needs a retry): four children (idx, a sibling, idx again, another sibling) are derived from the SAME extended private key object and from the SAME Public() object; for each, DeriveChild then Public() vs. DeriveChild on Public(): key bytes, chain code, fingerprint. shift also includes secp256k1 shifts lambda*k and lambda^2*k (the shifted point has the same y as the key and another x). shift: (curve, scalar k, 32-byte shift) with shift in {0, 1, k, n-k, n-k+-1, n-1, n, n+1, 2^256-1, random < n, random >= n} and k in {1, 2, n-1, (n+-1)/2, random, and unreduced scalars in (n, 2^256) — n+1, n+2, random, 2^256-1 — for which the key is built directly from the exported fields of elliptic.PrivateKey (multiples of n have no public key and are skipped)}: PrivateKey.Shift and PublicKey.Shift must both report ErrInvalidKey or both succeed with pub' = point(priv') (the point computed by the affine model for the returned private scalar); no panic. Whether the common verdict/value is the one SLIP-0010 prescribes is counted here and judged by C02. " +
 			"Non-trivial: distinct shift cases in a named corner class and all commute cases.",
 		Assumptions: []string{"math/big", "the affine model in harness/oracle/weier (self-tested)"},
 		SelfTest:    weier.SelfTest,
@@ -166,7 +166,13 @@ func judge(class string, key []byte, o *fw.Obs) {
 	}
 	if k.Sign() == 0 || k.Cmp(n) >= 0 || err != nil {
 		// NewPrivateKey refuses the scalar (key validity itself is C02's subject). The property quantifies over
-		// all scalars in [0, 2^256), and PrivateKey has exported fields: the key is built directly from them.
+		// all scalars in [0, 2^256), and PrivateKey has exported fields: the key is built directly from them —
+		// unless the scalar is a multiple of n: then there is no public key (its "point" is the neutral
+		// element, not a curve point), and what either side does with it is outside the statement.
+		if new(big.Int).Mod(k, n).Sign() == 0 {
+			o.Count("scalar is a multiple of n: no public key exists (skipped)")
+			return
+		}
 		var base slip10.Key
 		one := make([]byte, 32)
 		one[31] = 1
